@@ -143,8 +143,8 @@ func runC17(c *Ctx) {
 				if !pathExists(rd, ci, ret, nil, nil) {
 					continue
 				}
-				ok0, _ := allOrigins(ret.Results[0], oIsValue(resultOf(ci.(*ssa.Call), 0)))
-				ok1, _ := allOrigins(ret.Results[1], oIsValue(resultOf(ci.(*ssa.Call), 1)))
+				ok0, _ := allOriginsAfter(rd, ci, resOf(ret, 0), oIsValue(resultOf(ci.(*ssa.Call), 0)))
+				ok1, _ := allOriginsAfter(rd, ci, resOf(ret, 1), oIsValue(resultOf(ci.(*ssa.Call), 1)))
 				c.obI("R17.1", ret, "read-returns-delegate-results", ok0 && ok1, "Read returns the buffered reader's count and error unchanged", "")
 			}
 		}
@@ -170,7 +170,7 @@ func runC17(c *Ctx) {
 		}
 		if n, stt := structOf(fa.X.Type()); n != nil && typeFullName(n) == peekT {
 			nHC++
-			c.obI("R17.1", fa, "answer-from-current-stream-state", stt.Field(fa.Field).Name() == "underlying", "HasContent answers from the buffered stream's current state only (Buffered/Peek now): it neither reads nor writes any other field of the reader, so asking again after reads is answered for the bytes that remain", "HasContent accesses field "+stt.Field(fa.Field).Name())
+			c.obI("R17.1", fa, "answer-from-current-stream-state", fieldNameOf(n, stt, fa.Field) == "underlying", "HasContent answers from the buffered stream's current state only (Buffered/Peek now): it neither reads nor writes any other field of the reader, so asking again after reads is answered for the bytes that remain", "HasContent accesses field "+stt.Field(fa.Field).Name())
 		}
 	}
 	c.obF("R17.1", hc, "asks-the-buffered-stream", nHC >= 1, "HasContent consults the buffered stream", "")
@@ -230,7 +230,7 @@ func runC17(c *Ctx) {
 		c.obI("R17.2", k, "state-closed-whenever-original-closed", marked, "on every path on which the original stream is closed the wrapper is marked closed (underlying = nil), so later reads fail and a second Close does not reach the stream", "a path closes the original stream but leaves the wrapper open (stale buffered data stays readable, Close can reach the stream twice)")
 		for _, ret := range returnsOf(cl) {
 			if pathExists(cl, k, ret, nil, nil) {
-				ok, _ := allOrigins(ret.Results[0], oIsValue(k.Value()))
+				ok, _ := allOriginsAfter(cl, k, resOf(ret, 0), oIsValue(k.Value()))
 				c.obI("R17.2", ret, "returns-close-error", ok, "Close returns the original stream's Close error", "")
 			}
 		}
